@@ -838,6 +838,8 @@ func evalC20Lock(c c20Lock, o *Obs) error {
 	t0 := time.Now()
 	done := int64(0)
 	prevLoaded, prevHas := false, false // the quiet state the round starts from
+	var prevMsg *wire.MsgFilterLoad     // ... and the message that was loaded then, with a copy of its bits
+	var prevBits []byte
 	for r := int64(1); r <= int64(c.Rounds); r++ {
 		if r%256 == 0 && os.Getenv("VERIF_REPLAY") == "" && time.Since(t0) > budget {
 			break
@@ -899,6 +901,16 @@ func evalC20Lock(c c20Lock, o *Obs) error {
 		}
 		if failure != nil {
 			break
+		}
+		// a round that only drops the message (no insertion, no load): the dropped message is the caller's again and is
+		// what it was when the round began
+		if prevMsg != nil && nUnload > 0 && nReload == 0 && nSame == 0 && nAdd == 0 && !bytes.Equal(prevMsg.Filter, prevBits) {
+			failure = fmt.Errorf("round %d (%s): the message that was loaded before the round had bits %x, after being dropped it has %x", r, c20RoundOps(c, r), clip(prevBits), clip(prevMsg.Filter))
+			break
+		}
+		prevMsg, prevBits = msg, nil
+		if msg != nil {
+			prevBits = append([]byte{}, msg.Filter...)
 		}
 		prevLoaded, prevHas = loaded, has
 		if nReload > 0 && nUnload == 0 {
